@@ -101,13 +101,18 @@ type AnalyzedLetStatement struct {
 	VarType                    Type
 	NeedsRuntimeTypeValidation bool // is set to `true` if the rhs is of type `any`
 	OptType                    Type
+	IsPub                      bool
 	Range                      errors.Span
 }
 
 func (self AnalyzedLetStatement) Kind() AnalyzedStatementKind { return LetStatementKind }
 func (self AnalyzedLetStatement) Span() errors.Span           { return self.Range }
 func (self AnalyzedLetStatement) String() string {
-	return fmt.Sprintf("let %s: %s = %s;", self.Ident, self.VarType, self.Expression)
+	pub := ""
+	if self.IsPub {
+		pub = "pub "
+	}
+	return fmt.Sprintf("%slet %s: %s = %s;", pub, self.Ident, self.VarType, self.Expression)
 }
 func (self AnalyzedLetStatement) Type() Type { return NewNullType(self.Range) }
 
